@@ -141,6 +141,57 @@ def run_long(case, acc):
         acc.traces += 1
         if s.error is not None or ''.join(s.items) != text:
             return [viol(enc, 'long-text-differs', {'chunk_size': step, 'error': repr(s.error), 'decoded_length': len(''.join(s.items)), 'expected_length': len(text)})]
+    # a chunk of exactly k * 2^20 + 1 bytes, and one of exactly 2^20 bytes
+    for n in (2 ** 20 + 1, 2 ** 20, 2 ** 21 + 1):
+        base = (unit_s * (n // len(unit_s.encode(enc)) + 2))
+        blob = base.encode(enc)[:n] if enc in ('latin-1',) else None
+        if blob is None:
+            # cut on a character boundary at or below n, pad with ASCII to reach n exactly where the encoding allows it
+            t = ''
+            raw = b''
+            enc_a = len('a'.encode(enc if enc not in ('utf-16', 'utf-32') else enc + '-le'))
+            whole = base[:n]
+            raw = whole.encode(enc)
+            while len(raw) > n:
+                whole = whole[:-1]
+                raw = whole.encode(enc)
+            pad = (n - len(raw)) // enc_a
+            whole = whole + 'a' * pad
+            raw = whole.encode(enc)
+            if len(raw) != n:
+                continue
+            blob, text2 = raw, whole
+        else:
+            text2 = blob.decode(enc)
+        s = run([rs.data.decode(enc)], [blob])
+        acc.evals += 1
+        acc.traces += 1
+        if s.error is not None or ''.join(s.items) != text2:
+            return [viol(enc, 'single-chunk-of-%d-bytes-differs' % n, {'error': repr(s.error), 'decoded_length': len(''.join(s.items)), 'expected_length': len(text2)})]
+    # more than 65536 items through one encoder: the byte-order mark is still written once
+    many = ['a', '\u00e9'] * 32780
+    sink = run([rs.data.encode(enc)], many)
+    acc.evals += 1
+    try:
+        ok = b''.join(sink.items).decode(enc) == ''.join(many)
+    except Exception:
+        ok = False
+    if sink.error is not None or not ok:
+        return [viol(enc, 'many-items-one-shot-decode-differs (byte-order mark written more than once?)', {'items': len(many), 'error': repr(sink.error)})]
+    # the same decode pipeline subscribed again after an earlier subscriber left in the middle of the stream
+    import rx
+    import rx.operators as rxops
+    from ..bytelevel import RawSink
+    src = b''.join(run([rs.data.encode(enc)], [unit_s * 3]).items)
+    chunks = [src[:3], src[3:7], src[7:]]
+    obs = rx.from_(chunks).pipe(rs.data.decode(enc))
+    first = RawSink()
+    first.subscribe_to(obs.pipe(rxops.take(1)))
+    second = RawSink()
+    second.subscribe_to(obs)
+    acc.evals += 2
+    if second.error is not None or ''.join(second.items) != unit_s * 3:
+        return [viol(enc, 'second-subscription-differs-after-an-early-dispose', {'decoded': ''.join(second.items), 'error': repr(second.error)})]
     acc.nontrivial.add(fast_hash(('long', enc)))
     return []
 
